@@ -38,7 +38,7 @@ case "$1" in
   check)
     build
     shift
-    if [ "$1" = "C33" ]; then buildrace; fi
+    if [ "$1" = "C33" ] || [ "$1" = "C31" ]; then buildrace; fi
     if [ -z "$VERIF_REPO" ]; then flock -s 9; fi
     exec .build/bin/vcheck check "$@"
     ;;
